@@ -314,10 +314,14 @@ class DataflowAnalysisAttacher(Transformer):
         dims = OrderedSet(v for a in arrays for v in FindVariables().visit(a.dimensions))
         defines = self._symbols_from_expr(o.variables, condition=lambda x: x not in dims)
         uses = self._symbols_from_expr(o.data_source or ()) | dims
+        if o.status_var is not None:
+            defines |= self._symbols_from_expr(o.status_var)
         return self.visit_Node(o, defines_symbols=defines, uses_symbols=uses, **kwargs)
 
     def visit_Deallocation(self, o, **kwargs):
         defines = self._symbols_from_expr(o.variables)
+        if getattr(o, 'status_var', None) is not None:
+            defines |= self._symbols_from_expr(o.status_var)
         return self.visit_Node(o, defines_symbols=defines, **kwargs)
 
     visit_Nullify = visit_Deallocation
